@@ -32,7 +32,7 @@ DEFAULT_PROFILE = {
     "p_http": 0.9, "p_signature": 0.7, "p_routing": 0.25, "p_keyword_rpc": 0.08,
     "p_service_config": 0.8, "p_yaml": 0.3, "p_reserved_field": 0.08, "p_two_services": 0.25,
     "p_foreign_request": 0.1, "p_shuffle_numbers": 0.2, "p_additional_binding": 0.25,
-    "p_auto_populate": 0.0, "p_google_api_ns": 0.0, "sig_variants": False, "p_multi_var_path": 0.0, "mixin_variants": False, "p_add_iam_methods": 0.0, "p_equal_sort_keys": 0.0, "p_reserved_path_var": 0.0, "p_local_empty": 0.0, "p_same_method_two_services": 0.0, "p_required_enum": 0.0, "p_custom_http_pattern": 0.0, "p_real_api": 0.04, "common_file_names": ["resources"],
+    "p_auto_populate": 0.0, "p_google_api_ns": 0.0, "sig_variants": False, "p_multi_var_path": 0.0, "mixin_variants": False, "p_add_iam_methods": 0.0, "p_equal_sort_keys": 0.0, "p_reserved_path_var": 0.0, "p_local_empty": 0.0, "p_same_method_two_services": 0.0, "p_required_enum": 0.0, "p_custom_http_pattern": 0.0, "p_real_api": 0.04, "p_nested_name_ties": 0.15, "p_double_star_path": 0.0, "common_file_names": ["resources"],
     "transports": ["grpc", "grpc+rest", "grpc+rest", "rest"],
     "p_numeric_enums": 0.3,
     "paged_variants": False,
@@ -198,6 +198,12 @@ def gen_api(rng, prof=None):
             f = _rand_field(cx, used, nums[i], enums, msgs)
             fields.append(f)
         m = {"name": noun, "fields": fields, "resource": {"type": f"{host}/{noun}", "patterns": [pattern]}}
+        if cx.chance("p_nested_name_ties"):
+            # the same nested names (Options / Mode) under every resource: short-name ties for anything that sorts by name
+            m["messages"] = [{"name": "Options", "fields": [{"name": "verbose", "number": 1, "type": "bool"},
+                                                             {"name": "mode", "number": 2, "type": "enum", "type_name": f"{P}.{noun}.Mode"}]}]
+            m["enums"] = [{"name": "Mode", "values": [["MODE_UNSPECIFIED", 0], ["FAST", 1], ["SAFE", 2]]}]
+            fields.append({"name": "options", "number": 60, "type": "message", "type_name": f"{P}.{noun}.Options"})
         if rng.random() < 0.35:
             # a real oneof with 2-3 members
             m["oneofs"] = ["variant"]
@@ -459,6 +465,8 @@ def _gen_methods(cx, pkg, main, svc, noun, res, enums, msgs):
                 body = rng.choice(["*", "*", "", ""])
                 verbh = "post" if body else rng.choice(["get", "post"])
                 m["http"] = {"verb": verbh, "path": f"{pre}/{{name={wild}}}:{verb.lower()}"}
+                if cx.chance("p_double_star_path"):
+                    m["http"]["path"] = f"{pre}/{{name={wild}/**}}:{verb.lower()}"
                 if body:
                     m["http"]["body"] = body
                 elif cx.chance("p_custom_http_pattern"):
@@ -814,7 +822,7 @@ def gen_service_config(rng, spec, p_named=0.7):
         e = {"name": [{"service": s, "method": m} for s, m in grp]}
         c = rng.random()
         if c < 0.85:
-            e["timeout"] = rng.choice(["5s", "10s", "20s", "60s", "7.5s", "2.5s", "30s", "12.25s", "600s", "2.05s", "10.005s"])
+            e["timeout"] = rng.choice(["5s", "10s", "20s", "60s", "7.5s", "2.5s", "30s", "12.25s", "600s", "2.05s", "10.005s", "0.5s", "0.75s", "1s"])
         if rng.random() < 0.7:
             ncodes = rng.choice([1, 1, 2, 2, 3, 5])
             e["retryPolicy"] = {
